@@ -146,7 +146,7 @@ def main():
         results.append(json.load(open(out)))
 
     # ---- aggregate
-    mon, skips, events, margins = {}, {}, {}, {}
+    mon, skips, events, margins, kf_counts = {}, {}, {}, {}, {}
     nontriv = set()
     viols, samples = [], []
     cases_run = n_total = 0
@@ -161,6 +161,8 @@ def main():
             events[k] = events.get(k, 0) + v
         for k, v in r['margins'].items():
             margins[k] = max(margins.get(k, 0), v)
+        for k, v in r.get('kf_counts', {}).items():
+            kf_counts[k] = kf_counts.get(k, 0) + v
         nontriv.update(r['nontriv'])
         viols.extend(r['violations'])
         for s in r['samples']:
@@ -204,6 +206,7 @@ def main():
 
     # ---- replays + output
     rdir = os.path.join(HERE, 'replays', pid)
+    shutil.rmtree(rdir, ignore_errors=True)     # replays of this run only
     seen_paths = []
     for v in unlisted[:20]:
         os.makedirs(rdir, exist_ok=True)
@@ -219,8 +222,10 @@ def main():
             print(f'VIOLATION property={pid} replay={path}')
             print(f'  monitor={v["monitor"]} {v["msg"][:300]}')
     for key, vs in listed.items():
-        print(f'KNOWN-FINDING: property={pid} key={key} seen {len(vs)}x: '
-            f'{vs[0]["msg"][:200]}')
+        print(f'KNOWN-FINDING: property={pid} key={key} seen '
+            f'{kf_counts.get(key, len(vs))}x: {vs[0]["msg"][:200]}')
+    n_unlisted = sum(v for k, v in kf_counts.items()
+        if not (k and (pid, k) in kf))
 
     wall = time.time() - t0
     ev = {
@@ -238,7 +243,8 @@ def main():
             'events': dict(sorted(events.items())),
             'worst_ratio_to_tolerance': {k: float(f'{v:.3g}')
                 for k, v in sorted(margins.items())},
-            'known_findings_seen': {k: len(v) for k, v in listed.items()},
+            'known_findings_seen': {k: kf_counts.get(k, len(v))
+                for k, v in listed.items()},
             'verdict': 'violated' if unlisted else
                 ('inconclusive' if inconclusive else 'held'),
             'inconclusive_reasons': inconclusive,
@@ -247,7 +253,7 @@ def main():
         },
         'assumptions': getattr(mod, 'ASSUMPTIONS', []),
         'wall_s': round(wall, 2),
-        'violations': len(unlisted),
+        'violations': max(n_unlisted, len(unlisted)),
     }
     os.makedirs(os.path.join(HERE, 'evidence'), exist_ok=True)
     with open(os.path.join(HERE, 'evidence', f'{pid}.json'), 'w') as f:
@@ -262,7 +268,7 @@ def main():
 
     njudged = {k: v[0] for k, v in sorted(mon.items())}
     print(f'{pid} {a.tier} seed={a.seed}: cases={cases_run} '
-        f'nontrivial={len(nontriv)} violations={len(unlisted)} '
+        f'nontrivial={len(nontriv)} violations={max(n_unlisted, len(unlisted))} '
         f'wall={wall:.1f}s')
     print(f'  monitors judged: {njudged}')
     if skips:
